@@ -71,6 +71,23 @@ pub fn build_archive(seed: u64, case: u64, tag: &str) -> Arch {
 }
 
 fn subsets(bands: &[u32], rng: &mut Rng) -> Vec<Vec<u32>> {
+    let mut v = subsets_ascending(bands, rng);
+    // the order in which versions are named is the caller's: name them in a seeded random
+    // order (and, for two or more, also newest first)
+    let mut extra = Vec::new();
+    for s in v.iter_mut() {
+        if s.len() >= 2 {
+            let mut rev = s.clone();
+            rev.reverse();
+            extra.push(rev);
+            rng.shuffle(s);
+        }
+    }
+    v.extend(extra);
+    v
+}
+
+fn subsets_ascending(bands: &[u32], rng: &mut Rng) -> Vec<Vec<u32>> {
     if bands.len() <= 4 {
         (0..(1u32 << bands.len()))
             .map(|m| bands.iter().enumerate().filter(|(i, _)| m & (1 << i) != 0).map(|(_, b)| *b).collect())
@@ -379,7 +396,7 @@ pub fn run(tier: Tier, replay: Option<Value>) -> i32 {
         }
     });
     run.finish(
-        "archives from short histories (2-4 versions sharing combined blocks, optionally an interrupted band in the middle and garbage blocks from a hand-removed band); for each, every subset D of the bands when <= 4 (else 8 incl. none and all) x {dry run, real}; with a GC_LOCK already present every delete must be refused and leave the archive (that lock included) byte-identical. Real runs: the fault-free delete must remove exactly D, leave other band directories byte-identical, leave exactly the blocks referenced by the remaining bands' own hunks (independent scan) and every kept complete version must restore exactly; then EVERY crash point k of the delete's trace and EVERY read/list_dir/metadata operation failing with each of 4 kinds: kept complete versions still restore exactly and no kept band has a dangling reference. Distinct = (history, D).",
+        "archives from short histories (2-4 versions sharing combined blocks, optionally an interrupted band in the middle and garbage blocks from a hand-removed band); for each, every subset D of the bands when <= 4 (else 8 incl. none and all), named in a seeded random order and, for two or more versions, also newest first x {dry run, real}; with a GC_LOCK already present every delete must be refused and leave the archive (that lock included) byte-identical. Real runs: the fault-free delete must remove exactly D, leave other band directories byte-identical, leave exactly the blocks referenced by the remaining bands' own hunks (independent scan) and every kept complete version must restore exactly; then EVERY crash point k of the delete's trace and EVERY read/list_dir/metadata operation failing with each of 4 kinds: kept complete versions still restore exactly and no kept band has a dangling reference. Distinct = (history, D).",
         &["kill = no later storage effect", "E2 reader trusted"],
         Some(true),
         &[("real_deletes", 10), ("crash_points", 100), ("read_faults", 100), ("deletes_that_removed_blocks", 3), ("kept_versions_restored_after_fault", 50)],
